@@ -554,7 +554,11 @@ fn encode(op: &[String], capacity: usize) -> Result<Vec<u8>, String> {
     let seq = Sequence::new(op[1].parse().expect("seq"));
     let mut buffer = vec![0u8; capacity];
     let mut cursor = WriteCursor::new(&mut buffer);
-    let mut writer = start_request(ControlField::request(seq), function(&op[2]), &mut cursor).map_err(|e| format!("{:?}", e))?;
+    let mut writer = start_request(ControlField::request(seq), function(&op[2]), &mut cursor).map_err(|e| match e {
+        scursor::WriteError::NumericOverflow => "numeric-overflow".to_string(),
+        scursor::WriteError::WriteOverflow { .. } => "write-overflow".to_string(),
+        scursor::WriteError::BadSeek { .. } => "bad-seek".to_string(),
+    })?;
     for h in op[3..].split(|x| x == "/") {
         if h.is_empty() {
             continue;
